@@ -1,6 +1,6 @@
 (* C04 proofs: the writer model Formats/PlyWrite.v composed with the reader model Formats/PlyRead.v. *)
 From PF Require Import Base.Bytes Base.BytesMore Base.BytesProofs Formats.PlyRead Formats.PlyWrite.
-From Coq Require Import String Ascii ZifyN ZifyNat ZifyBool.
+From Coq Require Import String Ascii ZifyN ZifyNat ZifyBool DecimalString DecimalN.
 Open Scope list_scope.
 Open Scope N_scope.
 Ltac Zify.zify_post_hook ::= Z.div_mod_to_equations.
@@ -375,4 +375,306 @@ Proof.
   destruct d as [|d0 [|d1 [|d2 [|d3 [|]]]]]; try discriminate.
   destruct f as [|f0 [|f1 [|f2 [|f3 [|]]]]]; try discriminate.
   destruct g as [|g0 [|g1 [|g2 [|g3 [|]]]]]; try discriminate. reflexivity.
+Qed.
+
+(* ---------- binary face records ---------- *)
+Definition encI e (i : nat) := enc_word e Int (N.of_nat i).
+Lemma face_bin_notex e a b c rest st : tri_ok (a, b, c) -> shape st ->
+  face_bin e [(UChar, Int)] 0 0 None (([3] ++ encI e a ++ encI e b ++ encI e c) ++ rest) st =
+  Ok ({| fs_ibuf := [Z.of_nat a; Z.of_nat b; Z.of_nat c; nth 3 (fs_ibuf st) 0%Z]; fs_tbuf := fs_tbuf st; fs_points := 3 |}, rest).
+Proof.
+  intros (Ha & Hb & Hc) (Hi & Ht).
+  cbn [face_bin read_count app]. cbn [take of_opt rbind].
+  replace (dec_word e UChar [3]) with (Some 3) by (destruct e; reflexivity). cbn [of_opt rbind].
+  change (Z.of_N 3 <? 0)%Z with false. cbv iota.
+  change (Z.to_nat (Z.of_N 3) * sty_size Int)%nat with 12%nat.
+  rewrite take_app_exact by (rewrite !app_length; unfold encI; rewrite !enc_word_length; reflexivity).
+  cbn [of_opt rbind Nat.eqb nat_eqb_opt]. change (4 <? Z.of_N 3)%Z with false. cbv iota.
+  unfold words_of. cbn [sty_size]. rewrite chunks4_3 by apply enc_word_length. cbn [mapR]. unfold encI.
+  rewrite !dec_enc_word by (apply idx_fits; assumption). cbn [of_opt rbind map]. rewrite !signed32_idx by assumption.
+  destruct st as [ib tb p]. cbn [fs_ibuf fs_tbuf] in *.
+  destruct ib as [|i0 [|i1 [|i2 [|i3 [|]]]]]; try discriminate. reflexivity.
+Qed.
+
+Definition encF e (w : N) := enc_word e Float w.
+Lemma face_bin_tex e a b c u0 u1 u2 u3 u4 u5 rest st : tri_ok (a, b, c) -> Forall word32 [u0; u1; u2; u3; u4; u5] -> shape st ->
+  face_bin e [(UChar, Int); (UChar, Float)] 0 0 (Some 1%nat)
+    (([3] ++ encI e a ++ encI e b ++ encI e c) ++ [6] ++ flat_map (enc_word e Float) [u0; u1; u2; u3; u4; u5] ++ rest) st =
+  Ok ({| fs_ibuf := [Z.of_nat a; Z.of_nat b; Z.of_nat c; nth 3 (fs_ibuf st) 0%Z];
+         fs_tbuf := map cvF [u0; u1; u2; u3; u4; u5] ++ skipn 6 (fs_tbuf st); fs_points := 3 |}, rest).
+Proof.
+  intros (Ha & Hb & Hc) Hu (Hi & Ht).
+  cbn [face_bin read_count app]. cbn [take of_opt rbind].
+  replace (dec_word e UChar [3]) with (Some 3) by (destruct e; reflexivity). cbn [of_opt rbind].
+  change (Z.of_N 3 <? 0)%Z with false. cbv iota.
+  change (Z.to_nat (Z.of_N 3) * sty_size Int)%nat with 12%nat.
+  rewrite take_app_exact by (rewrite !app_length; unfold encI; rewrite !enc_word_length; reflexivity).
+  cbn [of_opt rbind Nat.eqb nat_eqb_opt]. change (4 <? Z.of_N 3)%Z with false. cbv iota.
+  unfold words_of at 1. cbn [sty_size]. rewrite chunks4_3 by apply enc_word_length. cbn [mapR]. unfold encI.
+  rewrite !dec_enc_word by (apply idx_fits; assumption). cbn [of_opt rbind map]. rewrite !signed32_idx by assumption.
+  cbn [app take of_opt rbind].
+  replace (dec_word e UChar [6]) with (Some 6) by (destruct e; reflexivity). cbn [of_opt rbind].
+  change (Z.of_N 6 <? 0)%Z with false. cbv iota.
+  change (Z.to_nat (Z.of_N 6) * sty_size Float)%nat with 24%nat.
+  cbn [flat_map]. rewrite app_nil_r. rewrite <- !app_assoc.
+  change (Z.to_nat (Z.of_N 6) * 4)%nat with 24%nat.
+  repeat rewrite Forall_cons_iff in Hu. destruct Hu as (H0 & H1 & H2 & H3 & H4 & H5 & _).
+  assert (Ea : forall X, enc_word e Float u0 ++ enc_word e Float u1 ++ enc_word e Float u2 ++ enc_word e Float u3 ++
+                         enc_word e Float u4 ++ enc_word e Float u5 ++ X =
+                         (enc_word e Float u0 ++ enc_word e Float u1 ++ enc_word e Float u2 ++ enc_word e Float u3 ++
+                          enc_word e Float u4 ++ enc_word e Float u5) ++ X) by (intros X; rewrite <- !app_assoc; reflexivity).
+  rewrite Ea. rewrite take_app_exact by (rewrite !app_length, !enc_word_length; reflexivity).
+  cbn [of_opt rbind]. change (8 <? Z.of_N 6)%Z with false. cbv iota.
+  unfold words_of. cbn [sty_size]. rewrite chunks4_6 by apply enc_word_length. cbn [mapR].
+  rewrite !dec_enc_word by (unfold word_fits; cbn; unfold word32 in *; lia). cbn [of_opt rbind map fs_ibuf fs_tbuf fs_points].
+  destruct st as [ib tb p]. cbn [fs_ibuf fs_tbuf] in *.
+  destruct ib as [|i0 [|i1 [|i2 [|i3 [|]]]]]; try discriminate.
+  destruct tb as [|t0 [|t1 [|t2 [|t3 [|t4 [|t5 [|t6 [|t7 [|]]]]]]]]]; try discriminate. reflexivity.
+Qed.
+
+Definition tri_z (t : nat * nat * nat) : list Z := let '(a, b, c) := t in [Z.of_nat a; Z.of_nat b; Z.of_nat c].
+Definition rec_notex e (t : nat * nat * nat) : list N := let '(a, b, c) := t in [3] ++ encI e a ++ encI e b ++ encI e c.
+Definition rec_tex e (tu : nat * nat * nat * list N) : list N := rec_notex e (fst tu) ++ [6] ++ flat_map (enc_word e Float) (snd tu).
+Definition ftu_ok (tu : nat * nat * nat * list N) : Prop := tri_ok (fst tu) /\ List.length (snd tu) = 6%nat /\ Forall word32 (snd tu).
+
+Theorem faces_bin_notex e : forall ts rest st, Forall tri_ok ts -> shape st ->
+  faces_bin e [(UChar, Int)] 0 None (flat_map (rec_notex e) ts ++ rest) (List.length ts) st = Ok (flat_map tri_z ts, []).
+Proof.
+  induction ts as [|[[a b] c] ts IH]; intros rest st Ht Hs; [reflexivity|].
+  inversion Ht as [|? ? T Ht']; subst.
+  cbn [List.length flat_map faces_bin]. rewrite <- app_assoc. unfold rec_notex at 1.
+  rewrite face_bin_notex by assumption. cbn [rbind].
+  unfold face_out. cbn [fs_points fs_ibuf fs_tbuf]. change ((3 <? 3)%Z || (4 <? 3)%Z) with false. cbv iota.
+  change (3 =? 4)%Z with false. cbv iota. cbn [nthZ nth app rbind].
+  rewrite IH; [reflexivity|assumption|]. split; [reflexivity|apply Hs].
+Qed.
+
+Theorem faces_bin_tex e : forall fts rest st, Forall ftu_ok fts -> shape st ->
+  faces_bin e [(UChar, Int); (UChar, Float)] 0 (Some 1%nat) (flat_map (rec_tex e) fts ++ rest) (List.length fts) st
+  = Ok (flat_map (fun tu => tri_z (fst tu)) fts, flat_map (fun tu => pairs (map cvF (snd tu))) fts).
+Proof.
+  induction fts as [|[[[a b] c] u] fts IH]; intros rest st Ht Hs; [reflexivity|].
+  inversion Ht as [|? ? (T & L & W) Ht']; subst. cbn [fst snd] in *.
+  destruct u as [|u0 [|u1 [|u2 [|u3 [|u4 [|u5 [|]]]]]]]; try discriminate.
+  cbn [List.length flat_map faces_bin]. rewrite <- app_assoc. unfold rec_tex at 1, rec_notex at 1. cbn [fst snd].
+  rewrite <- app_assoc. rewrite <- (app_assoc [6]).
+  rewrite face_bin_tex by assumption. cbn [rbind].
+  unfold face_out. cbn [fs_points fs_ibuf fs_tbuf]. change ((3 <? 3)%Z || (4 <? 3)%Z) with false. cbv iota.
+  change (3 =? 4)%Z with false. cbv iota. cbn [nthZ nthN nth app rbind map].
+  rewrite IH; [reflexivity|assumption|]. split; [reflexivity|].
+  cbn [fs_tbuf map app List.length]. destruct Hs as [_ Hs]. rewrite skipn_length, Hs. reflexivity.
+Qed.
+
+(* ---------- ASCII face lines ---------- *)
+Lemma tok_int_ntok k : tok_int (ntok k) = Some (Z.of_nat k).
+Proof. reflexivity. Qed.
+Lemma tok_f64_ftok w : tok_f64 (ftok w) = Some (cvF w).
+Proof. unfold ftok. destruct (int_of_f32 w); reflexivity. Qed.
+
+Lemma face_ascii_notex a b c st : shape st ->
+  face_ascii [(UChar, Int)] 0 0 None [ntok 3; ntok a; ntok b; ntok c] st =
+  Ok {| fs_ibuf := [Z.of_nat a; Z.of_nat b; Z.of_nat c; nth 3 (fs_ibuf st) 0%Z]; fs_tbuf := fs_tbuf st; fs_points := 3 |}.
+Proof.
+  intros (Hi & Ht). cbn [face_ascii]. rewrite tok_int_ntok. cbn [of_opt rbind List.length].
+  change (Z.of_nat 3) with 3%Z. change ((3 <? 0)%Z || (3 <? 3)%Z) with false. cbv iota.
+  change (Z.to_nat 3) with 3%nat. cbn [firstn skipn Nat.eqb nat_eqb_opt mapR].
+  change (4 <? 3)%Z with false. cbv iota. rewrite !tok_int_ntok. cbn [of_opt rbind].
+  destruct st as [ib tb p]. cbn [fs_ibuf fs_tbuf] in *.
+  destruct ib as [|i0 [|i1 [|i2 [|i3 [|]]]]]; try discriminate. reflexivity.
+Qed.
+
+Lemma face_ascii_tex a b c u0 u1 u2 u3 u4 u5 st : shape st ->
+  face_ascii [(UChar, Int); (UChar, Float)] 0 0 (Some 1%nat)
+    ([ntok 3; ntok a; ntok b; ntok c] ++ [ntok 6] ++ map ftok [u0; u1; u2; u3; u4; u5]) st =
+  Ok {| fs_ibuf := [Z.of_nat a; Z.of_nat b; Z.of_nat c; nth 3 (fs_ibuf st) 0%Z];
+        fs_tbuf := map cvF [u0; u1; u2; u3; u4; u5] ++ skipn 6 (fs_tbuf st); fs_points := 3 |}.
+Proof.
+  intros (Hi & Ht). cbn [face_ascii app map]. rewrite tok_int_ntok. cbn [of_opt rbind List.length].
+  change (Z.of_nat 3) with 3%Z. change ((3 <? 0)%Z || (Z.of_nat 10 <? 3)%Z) with false. cbv iota.
+  change (Z.to_nat 3) with 3%nat. cbn [firstn skipn Nat.eqb nat_eqb_opt mapR].
+  change (4 <? 3)%Z with false. cbv iota. rewrite !tok_int_ntok. cbn [of_opt rbind List.length].
+  change (Z.of_nat 6) with 6%Z. change ((6 <? 0)%Z || (6 <? 6)%Z) with false. cbv iota.
+  change (Z.to_nat 6) with 6%nat. cbn [firstn skipn mapR].
+  change (8 <? 6)%Z with false. cbv iota. rewrite !tok_f64_ftok. cbn [of_opt rbind fs_ibuf fs_tbuf fs_points].
+  destruct st as [ib tb p]. cbn [fs_ibuf fs_tbuf] in *.
+  destruct ib as [|i0 [|i1 [|i2 [|i3 [|]]]]]; try discriminate.
+  destruct tb as [|t0 [|t1 [|t2 [|t3 [|t4 [|t5 [|t6 [|t7 [|]]]]]]]]]; try discriminate. reflexivity.
+Qed.
+
+Definition line_notex (t : nat * nat * nat) : list tok := let '(a, b, c) := t in [ntok 3; ntok a; ntok b; ntok c].
+Definition line_tex (tu : nat * nat * nat * list N) : list tok := line_notex (fst tu) ++ [ntok 6] ++ map ftok (snd tu).
+
+Theorem faces_ascii_notex : forall ts rest st, shape st ->
+  faces_ascii [(UChar, Int)] 0 None (map line_notex ts ++ rest) (List.length ts) st = Ok (flat_map tri_z ts, []).
+Proof.
+  induction ts as [|[[a b] c] ts IH]; intros rest st Hs.
+  - cbn [map app List.length faces_ascii]. destruct rest; reflexivity.
+  - cbn [map app List.length flat_map]. change (line_notex (a, b, c)) with [ntok 3; ntok a; ntok b; ntok c].
+    cbn [faces_ascii]. rewrite face_ascii_notex by assumption. cbn [rbind].
+    unfold face_out. cbn [fs_points fs_ibuf fs_tbuf]. change ((3 <? 3)%Z || (4 <? 3)%Z) with false. cbv iota.
+    change (3 =? 4)%Z with false. cbv iota. cbn [nthZ nth app rbind].
+    rewrite IH; [reflexivity|]. split; [reflexivity|apply Hs].
+Qed.
+
+Theorem faces_ascii_tex : forall fts rest st, Forall (fun tu => List.length (snd tu) = 6%nat) fts -> shape st ->
+  faces_ascii [(UChar, Int); (UChar, Float)] 0 (Some 1%nat) (map line_tex fts ++ rest) (List.length fts) st
+  = Ok (flat_map (fun tu => tri_z (fst tu)) fts, flat_map (fun tu => pairs (map cvF (snd tu))) fts).
+Proof.
+  induction fts as [|[[[a b] c] u] fts IH]; intros rest st Ht Hs.
+  - cbn [map app List.length faces_ascii]. destruct rest; reflexivity.
+  - inversion Ht as [|? ? L Ht']; subst. cbn [fst snd] in *.
+    destruct u as [|u0 [|u1 [|u2 [|u3 [|u4 [|u5 [|]]]]]]]; try discriminate.
+    cbn [map app List.length flat_map].
+    change (line_tex (a, b, c, [u0; u1; u2; u3; u4; u5])) with ([ntok 3; ntok a; ntok b; ntok c] ++ [ntok 6] ++ map ftok [u0; u1; u2; u3; u4; u5]).
+    pose proof (face_ascii_tex a b c u0 u1 u2 u3 u4 u5 st Hs) as F. cbn [app map] in F |- *.
+    cbn [faces_ascii]. rewrite F. cbn [rbind app].
+    unfold face_out. cbn [fs_points fs_ibuf fs_tbuf]. change ((3 <? 3)%Z || (4 <? 3)%Z) with false. cbv iota.
+    change (3 =? 4)%Z with false. cbv iota. cbn [nthZ nthN nth app rbind map].
+    rewrite IH; [reflexivity|assumption|]. split; [reflexivity|].
+    cbn [fs_tbuf map app List.length]. destruct Hs as [_ Hs]. rewrite skipn_length, Hs. reflexivity.
+Qed.
+
+(* ================= header ================= *)
+Lemma parse_udec_show n : parse_udec (show_udec n) = Some n.
+Proof.
+  unfold parse_udec, show_udec. pose proof (Unsigned.of_to n) as E.
+  destruct (N.to_uint n) as [| | | | | | | | | |] eqn:D;
+    [rewrite NilZero.usu_nil; cbn [option_map]; f_equal; rewrite <- E; reflexivity
+    |rewrite NilZero.usu by discriminate; cbn [option_map]; f_equal; exact E ..].
+Qed.
+
+Lemma parse_dec_nosign s : (forall r, s <> String "-" r) -> (forall r, s <> String "+" r) ->
+  parse_dec s = option_map Z.of_N (parse_udec s).
+Proof.
+  intros Hm Hp. destruct s as [|c r]; [reflexivity|].
+  destruct c as [[] [] [] [] [] [] [] []]; try reflexivity; exfalso; first [eapply Hm; reflexivity | eapply Hp; reflexivity].
+Qed.
+
+Lemma parse_dec_show n : parse_dec (show_udec n) = Some (Z.of_N n).
+Proof.
+  rewrite parse_dec_nosign; [rewrite parse_udec_show; reflexivity| |];
+    intros r; unfold show_udec; destruct (N.to_uint n); discriminate.
+Qed.
+
+Lemma parse_sty_name t : parse_sty (sty_name t) = Ok t.
+Proof. destruct t; reflexivity. Qed.
+
+Definition prop_hdr_ok (p : prop) : Prop := match p with PScalar _ _ => True | PList _ _ n => lower n = n end.
+Definition elem_hdr_ok (e : element) : Prop :=
+  lower (e_name e) = e_name e /\ (0 <= e_count e)%Z /\ Forall prop_hdr_ok (e_props e).
+
+Lemma parse_property_line p : prop_hdr_ok p -> parse_property (prop_line p) = Ok p.
+Proof.
+  destruct p as [t n|ct lt n]; intros H; cbn [prop_line parse_property].
+  - replace (seqb (lower (sty_name t)) "list") with false by (destruct t; reflexivity).
+    rewrite parse_sty_name. reflexivity.
+  - change (seqb (lower "list") "list") with true. cbv iota. rewrite !parse_sty_name. cbn [rbind].
+    cbn in H. rewrite H. reflexivity.
+Qed.
+
+Lemma hstep_prop p e0 es0 cm : prop_hdr_ok p ->
+  hstep (prop_line p) {| hs_elems := e0 :: es0; hs_comments := cm |} =
+  Ok {| hs_elems := {| e_name := e_name e0; e_count := e_count e0; e_props := p :: e_props e0 |} :: es0; hs_comments := cm |}.
+Proof.
+  intros H. pose proof (parse_property_line p H) as E.
+  destruct p as [t n|ct lt n]; cbn [prop_line] in *;
+    (unfold hstep; change (seqb "property" "comment") with false; change (seqb "property" "element") with false;
+     change (seqb "property" "property") with true; cbv iota; rewrite E; reflexivity).
+Qed.
+
+Lemma is_end_prop p : is_end (prop_line p) = false.
+Proof. destruct p; reflexivity. Qed.
+
+Lemma props_loop : forall ps e0 es0 cm rest, Forall prop_hdr_ok ps ->
+  hloop (map prop_line ps ++ rest) {| hs_elems := e0 :: es0; hs_comments := cm |} =
+  hloop rest {| hs_elems := {| e_name := e_name e0; e_count := e_count e0; e_props := rev ps ++ e_props e0 |} :: es0;
+                hs_comments := cm |}.
+Proof.
+  induction ps as [|p ps IH]; intros e0 es0 cm rest H.
+  - cbn [map app rev]. destruct e0; reflexivity.
+  - inversion H as [|? ? Hp Hps]; subst. cbn [map app hloop]. rewrite is_end_prop, hstep_prop by assumption. cbn [rbind].
+    rewrite IH by assumption. cbn [e_name e_count e_props rev]. rewrite <- app_assoc. reflexivity.
+Qed.
+
+Definition unfinish (e : element) : element := {| e_name := e_name e; e_count := e_count e; e_props := rev (e_props e) |}.
+
+Lemma elems_loop : forall es es0 cm rest, Forall elem_hdr_ok es ->
+  hloop (flat_map elem_lines es ++ rest) {| hs_elems := es0; hs_comments := cm |} =
+  hloop rest {| hs_elems := rev (map unfinish es) ++ es0; hs_comments := cm |}.
+Proof.
+  induction es as [|e es IH]; intros es0 cm rest H; [reflexivity|].
+  inversion H as [|? ? (Hn & Hc & Hp) Hes]; subst.
+  cbn [flat_map]. rewrite <- app_assoc. unfold elem_lines at 1. cbn [app hloop].
+  change (is_end ["element"%string; e_name e; show_udec (Z.to_N (e_count e))]) with false. cbv iota.
+  unfold hstep. change (seqb "element" "comment") with false. change (seqb "element" "element") with true. cbv iota.
+  rewrite parse_dec_show. cbn [of_opt rbind hs_elems hs_comments].
+  rewrite props_loop by assumption. rewrite IH by assumption.
+  cbn [e_name e_count e_props map rev]. rewrite app_nil_r, <- app_assoc. cbn [app].
+  rewrite Hn. replace (Z.of_N (Z.to_N (e_count e))) with (e_count e) by lia. reflexivity.
+Qed.
+
+Lemma finish_unfinish e : finish_elem (unfinish e) = e.
+Proof. destruct e. unfold finish_elem, unfinish. cbn. rewrite rev_involutive. reflexivity. Qed.
+
+Theorem parse_header_written f es : Forall elem_hdr_ok es ->
+  parse_header (header_lines f es) = Ok {| h_fmt := f; h_elems := es; h_comments := [tl comment_line] |}.
+Proof.
+  intros H. unfold header_lines, parse_header. change (negb (seqb "ply" "ply")) with false. cbv iota.
+  cbn [skip_blank]. replace (parse_format ["format"%string; fmt_name f; "1.0"%string]) with (Ok f) by (destruct f; reflexivity).
+  cbn [rbind hloop]. change (is_end comment_line) with false. cbv iota.
+  change (hstep comment_line {| hs_elems := []; hs_comments := [] |}) with (Ok {| hs_elems := []; hs_comments := [tl comment_line] |}).
+  cbn [rbind]. rewrite elems_loop by assumption. cbn [hloop]. change (is_end ["end_header"%string]) with true. cbv iota.
+  cbn [rbind hs_elems hs_comments rev app]. rewrite app_nil_r, map_rev, rev_involutive, map_map.
+  f_equal. f_equal. rewrite <- (map_id es) at 2. apply map_ext. apply finish_unfinish.
+Qed.
+
+Lemma header_elems_ok gs m : Forall elem_hdr_ok (header_elems gs m).
+Proof.
+  assert (Hv : Forall prop_hdr_ok (vertex_props gs)).
+  { unfold vertex_props. induction gs as [|g gs IH]; [constructor|]. cbn [flat_map]. apply Forall_app. split; [|exact IH].
+    unfold group_props. induction (rg_names g); constructor; [exact I|assumption]. }
+  unfold header_elems. constructor.
+  - split; [reflexivity|]. split; [cbn [e_count]; lia|exact Hv].
+  - destruct (w_topo m); constructor; [|constructor].
+    split; [reflexivity|]. split; [cbn [e_count]; lia|]. unfold face_props. cbn [e_props].
+    destruct (has_tex m); repeat constructor.
+Qed.
+
+(* ================= what the writer model emits, in closed form ================= *)
+Lemma write_vertices_bin_ok n gs : Forall (group_good n) gs ->
+  mapR (vertex_words gs) (seq 0 n) = Ok (map (fun i => flat_map (fun g => gwords g i) gs) (seq 0 n)).
+Proof. intros H. apply mapR_ok. intros i Hi. apply in_seq in Hi. apply (vertex_words_ok n); [assumption|lia]. Qed.
+Lemma write_vertices_ascii_ok n gs : Forall (group_good n) gs ->
+  mapR (vertex_toks gs) (seq 0 n) = Ok (map (fun i => flat_map (fun g => gtoks g i) gs) (seq 0 n)).
+Proof. intros H. apply mapR_ok. intros i Hi. apply in_seq in Hi. apply (vertex_toks_ok n); [assumption|lia]. Qed.
+
+Lemma face_bin_rec_notex e m t : has_tex m = false -> face_bin_rec e m t = Ok (rec_notex e t).
+Proof. intros H. destruct t as [[a b] c]. unfold face_bin_rec. rewrite H. reflexivity. Qed.
+Lemma face_bin_rec_tex e m t uv : has_tex m = true -> face_uvs m t = Ok uv -> face_bin_rec e m t = Ok (rec_tex e (t, uv)).
+Proof.
+  intros H U. destruct t as [[a b] c]. unfold face_bin_rec. rewrite H, U. cbn [rbind]. unfold rec_tex, rec_notex. cbn [fst snd].
+  rewrite <- !app_assoc. reflexivity.
+Qed.
+Lemma face_ascii_line_notex m t : has_tex m = false -> face_ascii_line m t = Ok (line_notex t).
+Proof. intros H. destruct t as [[a b] c]. unfold face_ascii_line. rewrite H. reflexivity. Qed.
+Lemma face_ascii_line_tex m t uv : has_tex m = true -> face_uvs m t = Ok uv -> face_ascii_line m t = Ok (line_tex (t, uv)).
+Proof. intros H U. destruct t as [[a b] c]. unfold face_ascii_line. rewrite H, U. reflexivity. Qed.
+
+(* sizes: the header's property list and element counts determine the body length *)
+Lemma vertex_block_length e n gs : Forall (group_good n) gs ->
+  List.length (flat_map (fun i => flat_map (fun g => genc e g i) gs) (seq 0 n)) = (n * record_size (vertex_props gs))%nat.
+Proof.
+  intros H. rewrite record_size_props.
+  assert (G : forall k, (k <= n)%nat ->
+            List.length (flat_map (fun i => flat_map (fun g => genc e g i) gs) (seq (n - k) k)) = (k * size_of (tys_of gs))%nat).
+  { induction k as [|k IH]; intros Hk; [reflexivity|]. cbn [seq flat_map]. rewrite app_length.
+    rewrite (genc_total_length e n) by (try assumption; lia). replace (S (n - S k)) with (n - k)%nat by lia. rewrite IH by lia. lia. }
+  specialize (G n (le_n n)). rewrite Nat.sub_diag in G. exact G.
+Qed.
+Lemma rec_notex_length e t : List.length (rec_notex e t) = 13%nat.
+Proof. destruct t as [[a b] c]. unfold rec_notex, encI. rewrite !app_length, !enc_word_length. reflexivity. Qed.
+Lemma rec_tex_length e tu : List.length (snd tu) = 6%nat -> List.length (rec_tex e tu) = 38%nat.
+Proof.
+  destruct tu as [t u]. cbn [snd]. intros H. unfold rec_tex. cbn [fst snd]. rewrite !app_length, rec_notex_length.
+  destruct u as [|u0 [|u1 [|u2 [|u3 [|u4 [|u5 [|]]]]]]]; try discriminate. cbn [flat_map]. rewrite !app_length, !enc_word_length. reflexivity.
 Qed.
